@@ -116,6 +116,15 @@ const STEPS: &[(&str, &str)] = &[
     ("cat <<E | cat\npiped\nE", "here-document-pipeline"),
     ("cd d; cd ..; cd -; pwd", "cd-oldpwd"),
     ("read a b <e2; echo \"$a|$b\"", "read-file"),
+    // a symbolic link to a directory as a component that is not the last one (fixture: d/s/k, l2 -> ld/s)
+    ("cd ld/s; pwd; pwd -P; cd ..; pwd", "cd-through-symlink-component"),
+    ("cd -P ld/s; pwd; echo x >n; cd ../..; pwd; cat <d/s/n", "cd-through-symlink-component"),
+    ("cd -P ld/..; pwd; cd -P ld/../ld/s/..; pwd", "cd-through-symlink-component"),
+    ("cd l2; pwd -P; cd -P ..; pwd", "cd-through-symlink-chain"),
+    ("cd -P l2/..; pwd; cat <g", "cd-through-symlink-chain"),
+    ("cat <l2/k; echo y >l2/m; cat <d/s/m; cat <ld/s/k", "symlink-chain-open"),
+    ("echo x >newf/.; echo $?; echo *", "trailing-dot-create"),
+    ("PATH=$PWD; command -v d; echo $?; command -v e; echo $?", "command-search-non-executable"),
     ("while read l; do echo \"[$l]\"; done <e2", "read-loop"),
 ];
 
@@ -137,6 +146,9 @@ fn sim_run(script: &str) -> Obs {
     setup.files.push(("/tmp/w/e".into(), b"E\n".to_vec(), 0o644));
     setup.files.push(("/tmp/w/d/g".into(), b"G\n".to_vec(), 0o644));
     setup.files.push(("/tmp/w/e2".into(), b"1\n2 two\n3\n".to_vec(), 0o644));
+    setup.dirs.push("/tmp/w/d/s".into());
+    setup.files.push(("/tmp/w/d/s/k".into(), b"K\n".to_vec(), 0o644));
+    setup.symlinks.push(("/tmp/w/l2".into(), "ld/s".into()));
     setup.symlinks.push(("/tmp/w/l".into(), "e".into()));
     setup.symlinks.push(("/tmp/w/ld".into(), "d".into()));
     setup.symlinks.push(("/tmp/w/dangling".into(), "nowhere".into()));
@@ -187,7 +199,7 @@ fn sim_run(script: &str) -> Obs {
         }
     }
     walk(&r.state.borrow(), "/tmp/w", "", &mut tree);
-    Obs { stdout: r.stdout.replace("/tmp/w", "$W"), stderr_empty: r.stderr.is_empty(), status, tree }
+    Obs { stdout: r.stdout.replace("/tmp/w", "$W").replace("/tmp\n", "$P\n"), stderr_empty: r.stderr.is_empty(), status, tree }
 }
 
 fn sim_signal_name(n: i32) -> String {
@@ -212,14 +224,15 @@ fn real_signal_name(n: i32) -> String {
 fn real_run(script: &str, scratch_root: &std::path::Path, n: u64) -> Obs {
     let dir = scratch_root.join(format!("c{n}"));
     let _ = std::fs::remove_dir_all(&dir);
-    std::fs::create_dir_all(dir.join("d")).unwrap();
+    std::fs::create_dir_all(dir.join("d/s")).unwrap();
+    std::fs::write(dir.join("d/s/k"), "K\n").unwrap();
     std::fs::write(dir.join("e"), "E\n").unwrap();
     std::fs::write(dir.join("d/g"), "G\n").unwrap();
     std::fs::write(dir.join("e2"), "1\n2 two\n3\n").unwrap();
-    for (l, t) in [("l", "e"), ("ld", "d"), ("dangling", "nowhere")] {
+    for (l, t) in [("l", "e"), ("ld", "d"), ("dangling", "nowhere"), ("l2", "ld/s")] {
         std::os::unix::fs::symlink(t, dir.join(l)).unwrap();
     }
-    for p in ["e", "d/g", "e2"] {
+    for p in ["e", "d/g", "e2", "d/s/k"] {
         std::fs::set_permissions(dir.join(p), std::fs::Permissions::from_mode(0o644)).unwrap();
     }
     let exe = std::env::current_exe().unwrap();
@@ -292,7 +305,8 @@ fn real_run(script: &str, scratch_root: &std::path::Path, n: u64) -> Obs {
     }
     walk(&dir, "", &mut tree);
     let cwd = dir.to_string_lossy().into_owned();
-    let stdout = String::from_utf8_lossy(&out_stdout).replace(&cwd, "$W");
+    // (a script that climbs above its working directory sees the parent of the fixture: `$P`)
+    let stdout = String::from_utf8_lossy(&out_stdout).replace(&cwd, "$W").replace(&*scratch_root.to_string_lossy(), "$P");
     let _ = std::fs::remove_dir_all(&dir);
     Obs { stdout, stderr_empty: out_stderr.is_empty(), status, tree }
 }
